@@ -1112,6 +1112,27 @@ func c07DisabledForRuleSemantics(c *Ctx, fi *FuncInfo) {
 		return nil
 	}
 	ruleP, nameP, checkP, tagsP := par("rule"), par("name"), par("check"), par("promTags")
+	// renamed parameters: by type (the rule, the first string, the checker, the only string list)
+	byType := func(key string) types.Object {
+		for i := 0; i < sig.Params().Len(); i++ {
+			if paramTypeKey(sig.Params().At(i).Type()) == key {
+				return sig.Params().At(i)
+			}
+		}
+		return nil
+	}
+	if ruleP == nil {
+		ruleP = byType("internal/parser.Rule")
+	}
+	if nameP == nil {
+		nameP = byType("string")
+	}
+	if checkP == nil {
+		checkP = byType("internal/checks.RuleChecker")
+	}
+	if tagsP == nil || paramTypeKey(tagsP.Type()) != "[]string" {
+		tagsP = byType("[]string")
+	}
 	if ruleP == nil || nameP == nil || checkP == nil || tagsP == nil {
 		c.Undecided(R, "anchor:isDisabledForRule:params", fi.Decl.Pos(), "expected parameters rule, name, check, promTags")
 		return
